@@ -22,9 +22,12 @@
                       anywhere, then the trailers block
    Metadata is compared name by name ([hm_get_all]).  Domain (premises): compression not
    configured; the metadata contains no grpc-encoding entry (not a reserved name, but read by
-   the peer - see checks/C02.json); an error status has a code other than OK, UTF-8 message,
-   and no grpc-status-details-bin entry among its metadata (C04's premises); messages are
-   within the size limits (otherwise C06). *)
+   the peer - see checks/C02.json); an error status has a code other than OK and a UTF-8 message
+   (C04's premises).  Its metadata is otherwise arbitrary: since fix ed827503 (finding F-C04e) an
+   entry named grpc-status-details-bin among it neither changes code, message nor details; it is
+   the one entry that is not delivered ([same_status_full], c02_early_error; with no such entry the
+   whole metadata arrives: c02_same_status_whole).  Messages are within the size limits
+   (otherwise C06). *)
 From Verif Require Import Lib.Bytes Lib.Obs Lib.Utf8 Lib.HeaderMap Model.Frame Model.Status Proofs.Status.
 From Verif Require Import Gen.StatusTables Gen.CompressionTables.
 From Verif Require Model.Encoder Proofs.Encoder Model.Negotiate Model.Metadata Proofs.Metadata.
@@ -114,7 +117,8 @@ Proof. exact server_call_accepts. Qed.
    message).  For every request head qh and every transport: the client API returns Ok with
    the initial metadata, the response stream yields exactly ms in order, then a clean end iff
    fin = None, otherwise ONE error with st's code, message, details and exactly st's metadata
-   minus the reserved names *)
+   minus the reserved names and minus what st's metadata holds under grpc-status-details-bin
+   ([same_status_full]; the name is stripped by the reader) *)
 Theorem c02_response_stream :
   forall (msg : Type) (ser : msg -> option (list N)) (deser : list N -> option msg)
          (compress : encoding -> list N -> list N) (decompress : encoding -> list N -> option (list N)),
@@ -126,8 +130,7 @@ Theorem c02_response_stream :
       Forall (fun p => nlen p <= dec_limit (max_dec cl)) ps ->
       hm_get_all md hdr_grpc_encoding = [] ->
       (forall st, fin = Some st ->
-         well_formed st /\ utf8_valid (st_msg st) = true /\
-         hm_get_all (st_md st) hdr_grpc_status_details = [] /\ st_code st <> Code_Ok) ->
+         well_formed st /\ utf8_valid (st_msg st) = true /\ st_code st <> Code_Ok) ->
       exists w, handler_response msg ser compress sv qh (HStream (inl (md, src))) = Some w /\
         forall script, carries (wr_frames w) script -> (length script + length ms + 2 <= fuel)%nat ->
         exists md' e,
@@ -135,9 +138,22 @@ Theorem c02_response_stream :
           (forall k, Metadata.is_reserved k = false -> hm_get_all md' k = hm_get_all md k) /\
           match fin with
           | None => e = EndOk
-          | Some st => exists st', e = EndErr st' /\ same_status st' st
+          | Some st => exists st', e = EndErr st' /\ same_status_full st' st
           end.
 Proof. exact response_stream. Qed.
+
+(* [same_status_full a b] spelled out, and what the premise of before the fix still buys: with no
+   grpc-status-details-bin entry in b's metadata the whole sanitised metadata arrives
+   (Codec.same_status, the form C06 uses) *)
+Theorem c02_same_status_full_def : forall a b,
+  same_status_full a b <->
+  (st_code a = st_code b /\ st_msg a = st_msg b /\ st_details a = st_details b /\
+   forall k, hm_get_all (st_md a) k =
+             if bytes_eqb k hdr_grpc_status_details then [] else hm_get_all (sanitize (st_md b)) k).
+Proof. exact (fun a b => iff_refl _). Qed.
+Theorem c02_same_status_whole : forall a b,
+  hm_get_all (st_md b) hdr_grpc_status_details = [] -> same_status_full a b -> same_status a b.
+Proof. exact same_status_full_whole. Qed.
 
 (* unary responses (Unary, ClientStreaming): the handler returned Ok(md, m): the client API
    returns Ok(m) with a metadata map that has, under every non-reserved name, exactly the
@@ -160,21 +176,23 @@ Proof. exact response_unary. Qed.
 (* error before the first message, all four shapes, any sides: the handler returned Err(st).
    The response is trailers-only (no body frames); whatever the transport does with the (empty)
    body, the client API returns Err with st's code, message, details and, under every
-   non-reserved name, exactly st's metadata values *)
+   non-reserved name, exactly st's metadata values - except under grpc-status-details-bin, where
+   nothing is delivered (for EVERY metadata of st: fix ed827503) *)
 Theorem c02_early_error :
   forall (msg : Type) (ser : msg -> option (list N)) (deser : list N -> option msg)
          (compress : encoding -> list N -> list N) (decompress : encoding -> list N -> option (list N))
          (cl sv : side) (sh : shape) (qh : hm) (st : status) (h : hscript msg) (fuel : nat),
     h = HUnary (inr st) \/ h = HStream (inr st) ->
     well_formed st -> utf8_valid (st_msg st) = true ->
-    hm_get_all (st_md st) hdr_grpc_status_details = [] ->
     hm_get_all (st_md st) hdr_grpc_encoding = [] ->
     st_code st <> Code_Ok ->
     exists w, handler_response msg ser compress sv qh h = Some w /\ wr_frames w = [] /\
       forall script, exists st',
         client_call msg deser decompress cl sh (wr_http w) (wr_headers w) script fuel = CRErr st' /\
         st_code st' = st_code st /\ st_msg st' = st_msg st /\ st_details st' = st_details st /\
-        forall k, Metadata.is_reserved k = false -> hm_get_all (st_md st') k = hm_get_all (st_md st) k.
+        forall k, Metadata.is_reserved k = false ->
+          hm_get_all (st_md st') k =
+          if bytes_eqb k hdr_grpc_status_details then [] else hm_get_all (st_md st) k.
 Proof. exact early_error. Qed.
 
 (* the one place where metadata of two origins meet: the unary client API, when the FIRST thing
@@ -294,8 +312,7 @@ Definition ex_src : list (Encoder.sevent (list N)) :=
 Example c02_premises_hold :
   Encoder.outcome ser_id no_compress (cfg_of default_side) (Encoder.items_of ex_src) [[9]] [[9]] (Some ex_st) /\
   hm_get_all ex_md hdr_grpc_encoding = [] /\
-  well_formed ex_st /\ utf8_valid (st_msg ex_st) = true /\
-  hm_get_all (st_md ex_st) hdr_grpc_status_details = [] /\ st_code ex_st <> Code_Ok.
+  well_formed ex_st /\ utf8_valid (st_msg ex_st) = true /\ st_code ex_st <> Code_Ok.
 Proof.
   split.
   - exists [Encoder.IErr ex_st; Encoder.IOk [7]]. split; [reflexivity|]. split.
